@@ -195,6 +195,8 @@ def _sl_trace(filtered):
 
 
 contract("toasty.toast.sample_layer")(lambda c: (c.cases(*SL_CASES), c.setup(_sl_setup(False)), c.on_path(_sl_trace(False)),
+                                                 c.requires("depth >= 0", name="depth_is_a_level"),
                                                  c.may_raise("CallbackError", ""), c.may_raise("WorkerFailedError", "")))
 contract("toasty.toast.sample_layer_filtered")(lambda c: (c.cases(*SL_CASES), c.setup(_sl_setup(True)), c.on_path(_sl_trace(True)),
+                                                          c.requires("depth >= 0", name="depth_is_a_level"),
                                                           c.may_raise("CallbackError", ""), c.may_raise("WorkerFailedError", "")))
